@@ -53,6 +53,10 @@ def rowScale [Mul K] (w : Vector K n) (A : Mat n m K) : Mat n m K :=
 /-- a single column as an `n × 1` matrix -/
 def col (A : Mat n m K) (j : Fin m) : Mat n 1 K := ofFn fun i _ => A.get i j
 
+/-- select (permute, duplicate, drop) columns: column `j` of the result is column `f j` of `A` -/
+def selectCols {s' : Nat} (f : Fin s' → Fin m) (A : Mat n m K) : Mat n s' K :=
+  ofFn fun i j => A.get i (f j)
+
 /-- all entries satisfy a boolean predicate -/
 def all (A : Mat n m K) (p : K → Bool) : Bool :=
   (List.finRange n).all fun i => (List.finRange m).all fun j => p (A.get i j)
